@@ -170,7 +170,11 @@ CLAIMED["C05"] = dict(
          "step results have); abstract argument over construction sites. Per run: every Iterate/StepResult construction site "
          "and every callback call site in /repo is of a known kind (start, clipped step, copy, clip; via an Iterate, "
          "forwarded, start slack, scaling point, derivative check) and none is built from an unclipped expression (the "
-         "Globalized line search was one: F8, repaired in /repo). compute_xn tied on arbitrary binary64 inputs. Partial: relative "
+         "Globalized line search was one: F8, repaired in /repo). The Armijo search of the Globalized variant is modelled "
+         "(LineSearch.v): every trial point is in the box for every direction and step length, the step handed on is the "
+         "first accepted 2^-k (k < 30) and its point is the trial point that was tested, the step raises exactly when all 30 "
+         "trials are rejected; tied by the gnewton unit (scripted linear solver, recorded evaluation points). "
+         "compute_xn tied on arbitrary binary64 inputs. Partial: relative "
          "to the site inventory; Precision.Single not covered (F11).",
     note=FACT_NOTE, technique=FACT_TECH, ref="4/C05")
 CLAIMED["C06"] = dict(
